@@ -4,6 +4,7 @@ import (
 	"fmt"
 	"testing"
 
+	"github.com/antchfx/xpath"
 	"pgregory.net/rapid"
 
 	"verif/internal/harness"
@@ -113,7 +114,39 @@ func oracleC12Proto(l *harness.Live) (seq []int, f *harness.Failure) {
 	if f != nil {
 		return nil, f
 	}
-	// Evaluate: same sequence
+	// Evaluate: same sequence, and the same discipline after exhaustion
+	func() {
+		defer func() {
+			if r := recover(); r != nil {
+				pan = &harness.PanicInfo{Value: r, Text: fmt.Sprint(r)}
+			}
+		}()
+		if it, ok := e.Evaluate(l.Doc.Nav(l.Flavour, l.Ctx, nil)).(*xpath.NodeIterator); ok {
+			n := 0
+			for it.MoveNext() {
+				if c := xdoc.NodeOf(it.Current()); c == nil || (n < len(seq) && c.ID != seq[n]) {
+					f = harness.Failf(fmt.Sprint(seq), fmt.Sprintf("node %d of Evaluate's iterator is %v", n+1, c), "Evaluate's iterator reports a different node than Select's")
+					return
+				}
+				n++
+				if n > len(seq) {
+					break
+				}
+			}
+			for i := 0; i < extraMoves(l); i++ {
+				if it.MoveNext() {
+					f = harness.Failf("MoveNext() stays false once it returned false", fmt.Sprintf("true on extra call %d of Evaluate's iterator", i+1), "iterator restarted or continued after exhaustion")
+					return
+				}
+			}
+		}
+	}()
+	if pan != nil {
+		return nil, harness.Failf("Evaluate completes", pan.Text, "Evaluate panicked")
+	}
+	if f != nil {
+		return nil, f
+	}
 	v, f := evalWith(e, l)
 	if f != nil {
 		return nil, f
